@@ -137,13 +137,15 @@ def _specdir(ctx, tag, extra_files=()):
 RE_STATES = re.compile(r'(\d+) states generated, (\d+) distinct states found')
 
 
-def tlc_mc(ctx, module, cfg, workers=8, timeout=1800, extra_files=(), expect_violation=False, heap='12g', simulate=None):
+def tlc_mc(ctx, module, cfg, workers=8, timeout=1800, extra_files=(), expect_violation=False, heap='12g', simulate=None, deadlock=False):
     """Exhaustive (or simulated) TLC run of a bounded configuration of the specification itself.
     A violated invariant here is a defect of the specification, never of zlint (exit 2)."""
     d = _specdir(ctx, module + '.' + cfg, extra_files)
     cmd = _tlc_cmd(workers, heap) + ['-workers', str(workers), '-metadir', os.path.join(d, 'md'), '-config', cfg + '.cfg']
     if simulate:
         cmd += ['-simulate', simulate]
+    if deadlock is False and not simulate:
+        pass
     cmd += [module + '.tla']
     t0 = time.time()
     try:
@@ -153,7 +155,7 @@ def tlc_mc(ctx, module, cfg, workers=8, timeout=1800, extra_files=(), expect_vio
     m = RE_STATES.findall(out)
     gen, dist = (int(m[-1][0]), int(m[-1][1])) if m else (0, 0)
     ok = 'Model checking completed. No error has been found.' in out or (simulate and 'Finished in' in out and 'Error:' not in out)
-    violated = re.findall(r'Invariant (\S+) is violated', out) + re.findall(r'Action property (\S+) is violated', out)
+    violated = re.findall(r'Invariant (\S+) is violated', out) + re.findall(r'Action property (\S+) is violated', out) + (['Deadlock'] if 'Deadlock reached' in out else [])
     rec = dict(module=module, cfg=cfg, generated=gen, distinct=dist, ok=ok, violated=violated, wall_s=round(time.time() - t0, 1))
     ctx.mc_runs.append(rec)
     if expect_violation:
